@@ -75,6 +75,10 @@ func c20Inputs() ([][]byte, error) {
 		}
 		inputs = append(inputs, a, b)
 	}
+	// last input: key material as an application keeps it - an 8-byte IV directly followed by the 16-byte key and 8 more
+	// bytes in ONE buffer; op K passes buf[:8] (a slice with spare capacity) and buf[8:24] to the library
+	ivkey := append(append(append([]byte{}, ivClasses[5][:8]...), c20Key1...), 1, 2, 3, 4, 5, 6, 7, 8)
+	inputs = append(inputs, ivkey)
 	return inputs, nil
 }
 
@@ -251,6 +255,24 @@ func c20Op(st *c20State, op string, inputs [][]byte) (res int) {
 			}
 		}
 		return fileDigest(st.f)
+	case "K": // encrypt with key material taken from the shared buffer (8-byte IV with spare capacity)
+		if st.f.Init == nil {
+			return -2
+		}
+		buf := inputs[len(inputs)-1]
+		iv8, key := buf[:8], buf[8:24]
+		ipd, err := mp4.InitProtect(st.f.Init, key, iv8, "cenc", mp4.UUID(bytes.Repeat([]byte{9}, 16)), nil)
+		if err != nil {
+			return dig([]byte(err.Error()))
+		}
+		for _, seg := range st.f.Segments {
+			for _, fr := range seg.Fragments {
+				if err := mp4.EncryptFragment(fr, key, iv8, ipd); err != nil {
+					return dig([]byte(err.Error()))
+				}
+			}
+		}
+		return fileDigest(st.f)
 	case "C":
 		if st.f.Init == nil {
 			return -2
@@ -335,7 +357,7 @@ func c20Replay(args []string) error {
 		}
 		aliasing := false
 		for _, p := range s.Progs {
-			if p[0][0] == 'S' && (p[1] == "X" || p[1] == "C") {
+			if p[0][0] == 'S' && (p[1] == "X" || p[1] == "C" || p[1] == "K") {
 				aliasing = true
 			}
 		}
@@ -402,7 +424,7 @@ func c20Race(args []string) error {
 					dup = true
 				}
 			}
-			alias := p[0][0] == 'S' && (p[1] == "X" || p[1] == "C")
+			alias := p[0][0] == 'S' && (p[1] == "X" || p[1] == "C" || p[1] == "K")
 			if !dup && (withAlias || !alias) {
 				progs = append(progs, p)
 			}
